@@ -119,7 +119,7 @@ def scenario_family(rng, tier, *, nested=True, flat=True, callbacks=True, depth=
     return out
 
 
-def as_config_file(scn, rng):
+def as_config_file(scn, rng, split=False):
     """the same scenario taken through tickit's own loading path (sim.run_scenario `from_file`): written to a YAML
     configuration file, read, wired and built by read_configs / InverseWiring.from_component_configs / build_simulation and
     started through TickitSimulation.run() - as one simulation or DIVIDED over several that share the bus (scheduler here,
@@ -129,16 +129,21 @@ def as_config_file(scn, rng):
     s2["t0"] = 0
     s2["speed"] = [1, 1]
     tops = [c["name"] for c in s2["components"]]
-    r = rng.random()
+    r = 0.9 if split else rng.random()     # split: the scheduler's simulation hosts SOME of the components, another one the rest
     if r < 0.3 or len(tops) < 2:
         parts = [{"scheduler": True, "components": None}]
     elif r < 0.5:
         parts = [{"scheduler": True, "components": "none"}, {"scheduler": False, "components": None}]
     else:
-        rng2 = list(tops)
-        rng.shuffle(rng2)
-        k = rng.randrange(1, len(rng2))
-        a, b = sorted(rng2[:k], key=tops.index), sorted(rng2[k:], key=tops.index)
+        if split and rng.random() < 0.7:
+            # every other component in configuration order: wires cross the division in both directions (a component hosted
+            # here is fed by one hosted there which is fed by one hosted here)
+            a, b = tops[0::2], tops[1::2]
+        else:
+            rng2 = list(tops)
+            rng.shuffle(rng2)
+            k = rng.randrange(1, len(rng2))
+            a, b = sorted(rng2[:k], key=tops.index), sorted(rng2[k:], key=tops.index)
         parts = [{"scheduler": True, "components": a}, {"scheduler": False, "components": b}]
         if rng.random() < 0.5:
             parts.reverse()
